@@ -7,11 +7,12 @@ from .values import NotConcrete, is_first_order, value_to_json, values_equal
 
 
 class Report(list):
-    """list of disagreements (dicts) + bookkeeping: .pairs (jointly satisfiable pairs), .agreed, .undecided (list of dicts)"""
+    """list of disagreements (dicts) + bookkeeping: .pairs (jointly satisfiable pairs), .agreed, .undecided (list of dicts),
+    .queries (solver calls)"""
 
     def __init__(self):
         super().__init__()
-        self.pairs, self.agreed, self.undecided = 0, 0, []
+        self.pairs, self.agreed, self.undecided, self.queries = 0, 0, [], 0
 
     @property
     def ok(self):
@@ -28,26 +29,57 @@ def _args_json(model, args):
     return out
 
 
+def _literals(p):
+    """{id of atom: polarity} of the path condition's conjuncts (syntactic, for cheap disjointness tests)"""
+    out = {}
+    for c in p.pc:
+        neg = z3.is_not(c)
+        out[(c.arg(0) if neg else c).get_id()] = not neg
+    return out
+
+
+def _sat_in(model, conjuncts):
+    return model is not None and all(z3.is_true(model.eval(c, model_completion=True)) for c in conjuncts)
+
+
 def equivalent(paths1, paths2, solver=None, args=(), timeout_ms=10000) -> Report:
     """For every pair of paths with jointly satisfiable path conditions: both errors -> agree; both values -> must be equal
-    under pc1 /\\ pc2; value vs error -> disagreement.  Pairs involving undecided paths, uninterpreted functions whose
-    counterexample may be spurious, solver `unknown`, or closures that differ are reported in `.undecided`."""
-    s = solver or z3.Solver()
-    s.set("timeout", timeout_ms)
+    under pc1 /\\ pc2; value vs error -> disagreement (with the arguments `args` concretised under a model).  Pairs
+    involving undecided paths, uninterpreted functions (a counterexample may be spurious), solver `unknown`, or closures
+    that are not syntactically equal go to `.undecided`.  solver: optional push/pop solver to reuse; by default every
+    query runs in a fresh solver (faster in practice)."""
     rep = Report()
-    for i, p1 in enumerate(paths1):
-        s.push()
-        s.add(*p1.pc)
-        if s.check() == z3.unsat:
-            s.pop()
-            continue
-        for j, p2 in enumerate(paths2):
+
+    def check(conjuncts):
+        rep.queries += 1
+        s = solver or z3.SimpleSolver()
+        s.set("timeout", timeout_ms)
+        if solver is not None:
             s.push()
-            s.add(*p2.pc)
-            r = s.check()
-            if r == z3.unsat:
-                s.pop()
-                continue
+        s.add(*conjuncts)
+        r = s.check()
+        m = s.model() if r == z3.sat else None
+        if solver is not None:
+            s.pop()
+        return r, m
+
+    lits2 = [_literals(p) for p in paths2]
+    for i, p1 in enumerate(paths1):
+        l1 = _literals(p1)
+        for j, p2 in enumerate(paths2):
+            l2 = lits2[j]
+            if any(l2.get(k, v) != v for k, v in l1.items()):
+                continue  # a condition of one path is negated in the other
+            joint = p1.pc + [c for c in p2.pc if (c.arg(0) if z3.is_not(c) else c).get_id() not in l1]
+            r, model = z3.sat, None
+            if _sat_in(p1.model, p2.pc):
+                model = p1.model
+            elif _sat_in(p2.model, p1.pc):
+                model = p2.model
+            else:
+                r, model = check(joint)
+                if r == z3.unsat:
+                    continue
             rep.pairs += 1
             o1, o2 = p1.outcome, p2.outcome
             soft = bool(p1.uninterp or p2.uninterp or p1.approx or p2.approx or r != z3.sat)
@@ -60,26 +92,20 @@ def equivalent(paths1, paths2, solver=None, args=(), timeout_ms=10000) -> Report
                 if soft:
                     rep.undecided.append(dict(info, reason="value vs error under uninterpreted functions / unknown"))
                 else:
-                    rep.append(dict(info, kind="value-vs-error", args=_args_json(s.model(), args)))
+                    rep.append(dict(info, kind="value-vs-error", args=_args_json(model, args)))
             else:
                 eq = values_equal(o1[1], o2[1])
                 if eq is None:
                     rep.undecided.append(dict(info, reason="values of different shape (closures?)"))
+                    continue
+                eq = z3.simplify(eq)
+                r2, m2 = (z3.unsat, None) if z3.is_true(eq) else check(joint + [z3.Not(eq)])
+                if r2 == z3.unsat:
+                    rep.agreed += 1
+                elif r2 == z3.sat and not soft and is_first_order(o1[1]) and is_first_order(o2[1]):
+                    rep.append(dict(info, kind="different-values", args=_args_json(m2, args), values=_args_json(m2, [o1[1], o2[1]])))
                 else:
-                    s.push()
-                    s.add(z3.Not(eq))
-                    r2 = s.check()
-                    if r2 == z3.unsat:
-                        rep.agreed += 1
-                    elif r2 == z3.sat and not soft and is_first_order(o1[1]) and is_first_order(o2[1]):
-                        m = s.model()
-                        rep.append(dict(info, kind="different-values", args=_args_json(m, args),
-                                        values=_args_json(m, [o1[1], o2[1]])))
-                    else:
-                        rep.undecided.append(dict(info, reason="not provably equal (uninterpreted / unknown / closures)"))
-                    s.pop()
-            s.pop()
-        s.pop()
+                    rep.undecided.append(dict(info, reason="not provably equal (uninterpreted / unknown / closures)"))
     return rep
 
 
